@@ -136,7 +136,10 @@ def qe_asarray(qe, wave, waveunit):
     # Ensure qe is well-formed
     wave = np.asarray(wave)
     if not isinstance(qe, lentil.radiometry.Spectrum):
-        qe = np.asarray(qe)
+        # efficiencies are fractions: work in double precision whatever type they
+        # are stored in (an integer or bool 0/1 band mask would otherwise make the
+        # sum over wavelength run in the photon cube's own, possibly 8-bit, type)
+        qe = np.asarray(qe, dtype=float)
         if qe.shape == ():
             qe = qe*np.ones(wave.size)
         else:
